@@ -21,17 +21,22 @@ func init() {
 		Rule:           "runs = seeded histories of valid reports (replays, re-signed variants, boundary values) through a duplicating/reordering fabric, plus (thorough) exhaustive sequences up to length 4 over 2 devices x 2 slots x 3 values; non-trivial = at least one equivocation, over-capacity, replay or fabric fault happened; distinct = distinct decision signatures",
 		Real:           []string{"glow codecs and secp256k1", "server report handler (parse, verify, window checks, integrate, persist)", "server HTTP handlers (stats, recent reports)", "TCP sync handler", "background loops", "real files on tmpfs"},
 		Stub:           []string{"UDP socket read loop (modelled: leading 80 bytes of datagrams >= 80 bytes)", "HTTP/TCP accept loops"},
-		Assumptions:    []string{"device capacities below 2^56 so that capacity*135 fits 64 bits", "fresh ids always carry fresh keys"},
+		Assumptions:    []string{"fresh ids always carry fresh keys"},
 		RequiredProbes: []string{"c02.equivocation", "c02.over-capacity", "c02.replay", "c02.resigned", "c02.negative"},
 		RequiredSites:  []string{"report.after-write", "report.before-write"},
 	})
 }
 
-var c02Caps = []uint64{0, 1, 7, 1000, 1 << 40, 1<<56 - 1}
+// The last four are at and above 2^64/135, where capacity*135 no longer fits
+// 64 bits (a GCA writing "unlimited" as a huge number).
+var c02Caps = []uint64{0, 1, 7, 1000, 1 << 40, 1<<56 - 1, (1<<64-1)/135 + 1, 1 << 57, 1 << 63, 1<<64 - 1}
 
 func c02Limit(capacity uint64) uint64 {
 	hi, lo := mul64(capacity, 135)
 	q, _ := div128(hi, lo, 100)
+	if q.hi != 0 {
+		return 1<<64 - 1
+	}
 	return q.lo
 }
 
